@@ -3,6 +3,7 @@ from amaranth.utils import *
 import amaranth.lib.memory as memory
 from amaranth.hdl import AlreadyElaborated
 
+from math import lcm
 from typing import Optional, Any, final
 from collections.abc import Iterable
 
@@ -545,12 +546,27 @@ class MultiportILVTMemory(BaseMultiportMemory):
                     with m.Case(value):
                         m.d.comb += [bank_data.eq(m.submodules[f"bank_{value}"].read_ports[index].data)]
 
-            mux_inputs = [
-                ((write_addr_bypass[idx] == read_addr_bypass) & write_en_bypass[idx], write_data_bypass[idx])
-                for idx, write_port in enumerate(self.write_ports)
-                if write_port in read_port.transparent_for
+            # with granularity, each write enable bit bypasses only its own part of the word
+            transparent_idxs = [
+                idx for idx, write_port in enumerate(self.write_ports) if write_port in read_port.transparent_for
             ]
-            new_data = OneHotMux.create(m, mux_inputs, bank_data)
+            parts = lcm(*(len(write_en_bypass[idx]) for idx in transparent_idxs))
+            part_width = len(Value.cast(bank_data)) // parts
+            new_data = Cat(
+                OneHotMux.create(
+                    m,
+                    [
+                        (
+                            (write_addr_bypass[idx] == read_addr_bypass)
+                            & write_en_bypass[idx][k * len(write_en_bypass[idx]) // parts],
+                            Value.cast(write_data_bypass[idx])[k * part_width : (k + 1) * part_width],
+                        )
+                        for idx in transparent_idxs
+                    ],
+                    Value.cast(bank_data)[k * part_width : (k + 1) * part_width],
+                )
+                for k in range(parts)
+            )
 
             sync_data = Signal.like(read_port.data, reset_less=True)
             m.d.sync += sync_data.eq(read_port.data)
